@@ -29,3 +29,5 @@ def run(prog, chk):
     chk.rule("C02.entry", "KSI_Signature_verifyWithPolicy binds the verification to the document hash and level given as arguments, with or without "
                           "a caller-supplied context", floor=12)
     PC.check_verify_entry(prog, chk, "C02.entry")
+    chk.rule("C02.compare", "the hash comparison behind GEN-01 compares the algorithm octet and every digest octet", floor=50)
+    PC.check_comparators(prog, chk, "C02.compare")
